@@ -159,6 +159,7 @@ int main(int argc, char **argv) {
         ntok = 0;
         for (p = strtok(line, " \n"); p && ntok < MAXTOK; p = strtok(NULL, " \n")) tok[ntok++] = p;
         if (ntok == 0) { printf("bad-op\n"); continue; }
+        if (!strcmp(tok[0], "CFG")) { printf("cfg\n"); fflush(stdout); continue; }   /* model configuration only */
         s = ntok > 1 ? atoi(tok[1]) : 0;
         if (s < 0 || s >= NSLOT) { printf("bad-op\n"); continue; }
 #define NEEDOPEN(sl) if (!isopen[sl]) { printf("closed\n"); fflush(stdout); continue; }
